@@ -3,6 +3,7 @@ package main
 import (
 	"fmt"
 	"math"
+	"strings"
 
 	"github.com/ulikunitz/lz"
 )
@@ -296,7 +297,11 @@ func runC13(t *Trace) *Result {
 			Msg: fmt.Sprintf("the same trace executed twice differs at operation %d: %q vs %q (ticks %d vs %d)", d, obsAt(a, d), obsAt(a2, d), tickAt(a, d), tickAt(a2, d))}
 		return res
 	}
-	if t.ResetAt <= 0 || t.ResetAt >= len(t.Ops) || len(a.Cursors) <= t.ResetAt {
+	if t.ResetAt <= 0 || t.ResetAt >= len(t.Ops) || len(a.Cursors) <= t.ResetAt || len(a.Obs) <= t.ResetAt {
+		return res
+	}
+	if t.Ops[t.ResetAt].K != "Reset" || !strings.HasSuffix(a.Obs[t.ResetAt], "err=nil") {
+		// a refused Reset leaves the used parser as it was: not the premise of the property
 		return res
 	}
 	// oracle 1: fresh twin executes Ops[ResetAt:] from the same input position
